@@ -13,7 +13,7 @@ from .props import PROPS
 
 VERIF = build.VERIF
 EVID = os.environ.get('ZISIM_EVIDENCE_DIR') or os.path.join(VERIF, 'evidence')
-REPLAYS = os.path.join(VERIF, 'replays')
+REPLAYS = os.environ.get('ZISIM_REPLAY_DIR') or os.path.join(VERIF, 'replays')
 
 
 def out(*a):
